@@ -239,7 +239,12 @@ impl<T: std::cmp::PartialEq + std::fmt::Display + std::fmt::Debug> Element<T> {
 
         if let Some(n) = trace_length.get(&self.formatted_name()) {
             let start = trace.len().saturating_sub(*n);
-            name = trace[start..].join("")
+            name = trace[start..].join("");
+
+            // `Self` is a keyword, and String, Option and Vec are the types of the generated fields
+            if ["Self", "String", "Option", "Vec"].contains(&name.as_str()) {
+                name.push('_');
+            }
         }
         name
     }
